@@ -328,6 +328,11 @@ class Puppet:
             args['never'] = True
         await self.leaf(op, f, args, tag={'c': op['c']})
 
+    async def op_await_s(self, op):
+        async def f():
+            await self.w.scopes[op['s']]
+        await self.leaf(op, f, {'s': op['s']}, tag={'s': op['s']})
+
     async def op_probe_c(self, op):
         cond = self.cond(op['c'])
         self.emit('p', op='probe_c', c=op['c'], v=bool(cond), nv=bool(~cond))
@@ -574,6 +579,11 @@ class Puppet:
 
     async def op_rset(self, op):
         await self.rchange(op, 'rset')
+
+    async def op_await_lvl(self, op):
+        async def f():
+            await (self.w.pools[op['p']] >= {'a': op['v']})
+        await self.leaf(op, f, {'p': op['p'], 'v': op['v']}, tag={'p': op['p']})
 
     async def op_levels(self, op):
         self.emit('p', op='levels', p=op['p'], v=self.w.pools[op['p']].levels.a)
